@@ -47,7 +47,7 @@ func (fr *Frame) call(in *ssa.Call) *GVal {
 	if callee.Name() == "init" && len(args) == 0 {
 		return &GVal{Typ: rt} // initialiser of an imported package
 	}
-	return fr.stdlibCall(in, callee, args)
+	return fr.stdlibDispatch(in, callee, args)
 }
 
 func (fr *Frame) havocResult(rt types.Type, base string) *GVal {
@@ -422,7 +422,33 @@ func (fr *Frame) contractCall(in *ssa.Call, callee *ssa.Function, c *Contract, a
 		}
 		ex.unsupp("callee %s has no assigns clause: heap havocked", name)
 	}
+	if callee.Pkg != nil && callee.Pkg == ex.p.mainPkg {
+		// functions of the command may print: their contract says what
+		for _, k := range ioGhosts {
+			ex.st.ghost[k.name] = ex.p.FreshConst(k.name+"_after_"+callee.Name(), k.sort)
+		}
+	}
 	res := fr.havocResult(in.Type(), name)
+	if fr.fn.Pkg != nil && fr.fn.Pkg == ex.p.mainPkg {
+		// remember what was passed and returned, for \arg(f, i) and \ret(f, i) in the caller's contract
+		for i := range callee.Params {
+			if t := vars[callee.Params[i].Name()].T; t != nil {
+				ex.st.ghost[fmt.Sprintf("arg:%s:%d", callee.Name(), i)] = t
+				ex.p.ghostSorts[fmt.Sprintf("arg:%s:%d", callee.Name(), i)] = t.S
+			}
+		}
+		if res.Tuple != nil {
+			for i, g := range res.Tuple {
+				if g.T != nil {
+					ex.st.ghost[fmt.Sprintf("ret:%s:%d", callee.Name(), i)] = g.T
+					ex.p.ghostSorts[fmt.Sprintf("ret:%s:%d", callee.Name(), i)] = g.T.S
+				}
+			}
+		} else if res.T != nil {
+			ex.st.ghost[fmt.Sprintf("ret:%s:0", callee.Name())] = res.T
+			ex.p.ghostSorts[fmt.Sprintf("ret:%s:0", callee.Name())] = res.T.S
+		}
+	}
 	rn := resultNames(callee)
 	post := map[string]*GVal{}
 	for k, v := range vars {
